@@ -26,7 +26,7 @@ func init() {
 			"partition into writes (byte at a time, many records per write, everything at once, random) x pauses in fake time x short reads x buffer-size knob {16,64,4096} x delimiter {\\n, 0x1e}; " +
 			"faults: end of stream, callback error at every record index i of the stream (enumerated within a group of runs), read error (EIO) at a random instant; " +
 			"non-trivial = at least 2 records and (a record longer than the internal buffer or a write boundary inside a record or a fault fired); distinct = distinct (stream+partition hash, schedule hash)",
-		Quick: 6000, Thorough: 300000,
+		Quick: 12000, Thorough: 400000,
 	})
 }
 
